@@ -529,6 +529,18 @@ pub fn explore_bfs<F: Fn() -> Outcome + Sync>(cfg: &Config, f: F) -> Stats {
         frontier = std::mem::take(&mut BFS.lock().unwrap().as_mut().unwrap().next);
         frontier.sort();
         level += 1;
+        // the workers look at the clock every 64 executions, which a long run
+        // of narrow levels never reaches: look here as well
+        if !frontier.is_empty() {
+            if cfg.deadline.map_or(false, |d| Instant::now() >= d) {
+                total.capped = Some(format!("wall-clock cap reached (breadth-first level {})", level));
+                break;
+            }
+            if let Some(gb) = rss_over_cap() {
+                total.capped = Some(format!("resident-memory cap reached ({} GiB) (breadth-first level {})", gb, level));
+                break;
+            }
+        }
     }
     let b = BFS.lock().unwrap().take().unwrap();
     total.bfs_states = Some(b.visited.len() as u64);
